@@ -1300,6 +1300,7 @@ def check_C13(run):
         gone_all = {p for p in tb if p not in ta}
         gone_top = {p for p in gone_all if not any(p.startswith(q + "/") for q in gone_all)}
         changed = {p for p in ta if p in tb and ta[p] != tb[p]} | {p for p in ta if p not in tb}
+        changed = {p for p in changed if not p.startswith("version_index.sqlite")}   # created by any command
         if st.before.get("outside") != st.after.get("outside"):
             lost = sorted(set(st.before.get("outside", {})) - set(st.after.get("outside", {})))
             V.append(Violation("C13", "gc-deleted-something-outside-cond-out", {"lost": lost[:5]}, i))
